@@ -6,7 +6,7 @@
 From Coq Require Import ZArith List Bool Lia Permutation.
 From Arsenal Require Import Util Budget BudgetProofs VamDev VamBlockList Vam VamInvMeta VamInv VamInvUpd VamInvDev.
 From Arsenal Require Import VamInvStep VamInvStep2 VamAcct VamAcctStep VamAcctStep2 VamMap VamMapStep VamMapStep2 VamHv VamHvStep.
-From Arsenal Require SyncMem SyncMemProofs.
+From Arsenal Require SyncMem SyncMemProofs VamFlush.
 Import ListNotations.
 Open Scope Z_scope.
 
@@ -648,14 +648,19 @@ Proof.
 Qed.
 
 Lemma allocation_flush_inv v inval s off size :
+  1 <= c_atom c ->
   VamInvH v [] [] -> let '(v', r) := allocation_flush c v inval s off size in slot_post v v' s r.
 Proof.
-  intros HI. unfold allocation_flush. destruct (negb _); [apply slot_post_refl; auto|].
+  intros Hatom HI. pose proof (VamMapStep2.allocation_flush_inv c Hc Hmax Hlarge ms0 v inval s off size Hatom (vh_m _ _ _ HI)) as P.
+  unfold allocation_flush in *. destruct (negb _); [apply slot_post_refl; auto|].
   destruct (flush_range c v (get_alloc v s) off size) as [[(roff & rsize)|]|code| |]; try (apply slot_post_refl; auto); try exact I.
-  pose proof (dev_flush_sameA c Hc Hmax Hlarge (v_m v) inval (a_mem (get_alloc v s)) roff rsize) as Hm.
-  pose proof (dev_flush_sameM (v_m v) inval (a_mem (get_alloc v s)) roff rsize) as Hm2.
-  destruct (dev_flush (v_m v) inval (a_mem (get_alloc v s)) roff rsize) as (m1 & code). cbn [fst] in Hm, Hm2.
-  apply slot_post_of. split; [apply VamInvH_mach_same; [auto|split; auto]|]. split; [apply tab_frame_set_m|apply lists_frame_set_m].
+  assert (Hx : mach_ext (v_m v) (fst (dev_flush (v_m v) inval (a_mem (get_alloc v s)) roff rsize))).
+  { unfold dev_flush. destruct (find_mem _ _); [|apply mach_ext_log; reflexivity]. destruct (dev_fault _ _ _) as ((f1 & fired1) & r). cbn [fst].
+    eapply mach_ext_trans; [apply (mach_ext_quiet (v_m v) (set_fault (v_m v) f1 fired1)); reflexivity|apply mach_ext_log; reflexivity]. }
+  destruct (dev_flush (v_m v) inval (a_mem (get_alloc v s)) roff rsize) as (m1 & code). cbn [fst] in Hx.
+  apply slot_post_of.
+  assert (PM : VamInvM (set_m v m1) [] [] /\ tab_frame v (set_m v m1) [s] /\ lists_frame v (set_m v m1)) by (destruct (code =? 0); exact P).
+  destruct PM as (A & B & C0). split; [split; [exact A|apply (HH_mach c); [exact (vh_h _ _ _ HI)|exact Hx]]|auto].
 Qed.
 
 
@@ -841,13 +846,17 @@ Proof. intros H. destruct r; cbn; auto; (split; [auto|apply tab_frame_refl]). Qe
 
 Lemma bind_memory_inv v s image res off : VamInvH v [] [] -> let '(v', r) := bind_memory v s image res off in res_post v v' s r.
 Proof.
-  intros HI. unfold bind_memory. destruct (res =? 0); [apply res_post_refl; auto|]. destruct (negb _); [apply res_post_refl; auto|].
+  intros HI. pose proof (VamMapStep2.bind_memory_inv c Hc Hmax Hlarge ms0 v s image res off (vh_m _ _ _ HI)) as P.
+  unfold bind_memory in *. destruct (res =? 0); [apply res_post_refl; auto|]. destruct (negb _); [apply res_post_refl; auto|].
   match goal with |- context [match ?t with OK _ => _ | ER _ => _ | PANIC => _ | STUCK => _ end] => destruct t as [o|code| |] end;
     try (apply res_post_refl; auto); try exact I.
-  pose proof ((VamMapStep2.dev_bind_sameX c Hc Hmax Hlarge) (v_m v) image res (a_mem (get_alloc v s)) o) as H.
-  destruct (dev_bind (v_m v) image res (a_mem (get_alloc v s)) o) as (m1 & code). cbn [fst] in H.
-  assert (P : VamInvH (set_m v m1) [] [] /\ tab_frame v (set_m v m1) [s]) by (split; [apply VamInvH_mach_same; auto|apply tab_frame_set_m]).
-  destruct (code =? 0); exact P.
+  destruct (VamFlush.dev_bind_calls (v_m v) image res (a_mem (get_alloc v s)) o) as (code0 & Ecalls & _).
+  destruct (dev_bind (v_m v) image res (a_mem (get_alloc v s)) o) as (m1 & code). cbn [fst] in Ecalls.
+  assert (Hx : mach_ext (v_m v) m1) by (exists [CBind image res (a_mem (get_alloc v s)) o code0]; split; [exact Ecalls|constructor; [reflexivity|constructor]]).
+  assert (PM : VamInvM (set_m v m1) [] [] /\ tab_frame v (set_m v m1) [s]) by (destruct (code =? 0); exact P).
+  destruct PM as (A & B).
+  assert (Q : VamInvH (set_m v m1) [] [] /\ tab_frame v (set_m v m1) [s]) by (split; [split; [exact A|apply (HH_mach c); [exact (vh_h _ _ _ HI)|exact Hx]]|exact B]).
+  destruct (code =? 0); exact Q.
 Qed.
 
 Lemma allocation_free_inv v s :
